@@ -797,6 +797,84 @@ fn gen_big(rng: &mut Rng) -> Value {
     json!({"bg": Value::Null, "imgs": [{"w": w, "h": h, "data": data, "crop": Value::Null}], "draws": [0, 0]})
 }
 
+/// products of two integer constants of src/image.rs: derived thresholds no literal spells out (the sub-sampling
+/// budget of from_image is palette size x 100 pixels)
+fn product_thresholds(lo: u64, hi: u64) -> Vec<u64> {
+    let lits = source_literals(&["src/image.rs"]);
+    let mut out: Vec<u64> = vec![];
+    for (i, a) in lits.iter().enumerate() {
+        for b in &lits[i..] {
+            if *a >= 2 && *b <= 100_000 {
+                let p = a.saturating_mul(*b);
+                if p >= lo && p <= hi {
+                    out.push(p);
+                }
+            }
+        }
+    }
+    out.sort_unstable();
+    out.dedup();
+    out
+}
+
+/// an image whose DRAWN pixel count sits next to `t` (side 0: the largest count <= t, 1: the smallest count > t,
+/// 2: the largest count < 2t), a few colours in long runs plus RARE colours (one or two pixels each), all distinct at
+/// 0..100 resolution and well below 256: whether such an image is sub-sampled decides whether the rare colours get
+/// a register
+fn gen_pixel_threshold(rng: &mut Rng, t: u64, side: u64) -> Value {
+    let t = t.max(64) as usize;
+    // width and number of bands with h * w as close to the target as possible
+    let mut best = (usize::MAX, 32usize, 6usize);
+    for w in 20..=72usize {
+        let band = 6 * w;
+        let (n, ok) = match side {
+            0 => ((t / band) * band, t >= band),
+            1 => ((t / band + 1) * band, true),
+            _ => (((2 * t - 1) / band) * band, 2 * t - 1 >= band),
+        };
+        let target = match side { 0 => t, 1 => t + 1, _ => 2 * t - 1 };
+        let d = if n > target { n - target } else { target - n };
+        if ok && (d < best.0 || (d == best.0 && rng.chance(1, 2))) {
+            best = (d, w, n / w);
+        }
+    }
+    let (_, w, h6) = best;
+    let h = h6 + if rng.chance(1, 3) { rng.below(6) as usize } else { 0 };
+    let byte = |l: u64| (l as f32 * 2.55).round() as u8;
+    let nbase = 2 + rng.below(3) as usize;
+    let nrare = 4 + rng.below(12) as usize;
+    let mut levels: Vec<[u64; 3]> = vec![];
+    while levels.len() < nbase + nrare {
+        let l = [rng.below(101), rng.below(101), rng.below(101)];
+        if !levels.contains(&l) {
+            levels.push(l);
+        }
+    }
+    let cols: Vec<Rgb> = levels.iter().map(|l| [byte(l[0]), byte(l[1]), byte(l[2])]).collect();
+    let mut px: Vec<Rgb> = vec![cols[0]; w * h];
+    for r in 0..h {
+        let mut c = 0;
+        while c < w {
+            let run = match rng.below(3) { 0 => w, 1 => 8 + rng.below(30) as usize, _ => 1 + rng.below(5) as usize };
+            let col = if r % 6 != 0 && rng.chance(3, 4) { px[(r - 1) * w + c] } else { cols[rng.below(nbase as u64) as usize] };
+            for k in 0..run {
+                if c + k < w {
+                    px[r * w + c + k] = col;
+                }
+            }
+            c += run;
+        }
+    }
+    for rare in &cols[nbase..] {
+        for _ in 0..1 + rng.below(2) {
+            let i = rng.below((h6 * w) as u64) as usize;
+            px[i] = *rare;
+        }
+    }
+    let data: Vec<Value> = px.iter().map(|p| json!([p[0], p[1], p[2], 255])).collect();
+    json!({"bg": Value::Null, "imgs": [{"w": w, "h": h, "data": data, "crop": Value::Null}], "draws": [0]})
+}
+
 /// several small images on one handler with the accounted cache size pushed to the limit in between
 /// (verif-hooks), so that the least recently used entries are evicted and drawn images are re-encoded
 fn gen_eviction(rng: &mut Rng, thorough: bool) -> Value {
@@ -882,7 +960,21 @@ pub fn generate(rng: &mut Rng, n: usize, tier: &str) -> Vec<Value> {
     for ncol in [256usize, 255, 257, 256] {
         v.push(gen_colour_count(rng, ncol));
     }
+    // drawn pixel counts next to the products of two source constants (no literal says 25600 = 256 x 100): the
+    // largest product below 26k from both sides in every run, random ones in the thorough tier
+    let prods = product_thresholds(2_000, 26_000);
+    if let Some(t) = prods.last().copied() {
+        v.push(gen_pixel_threshold(rng, t, 1));
+        v.push(gen_pixel_threshold(rng, t, 2));
+        v.push(gen_pixel_threshold(rng, t, 0));
+    }
     for i in 0..n {
+        if thorough && i % 60 == 33 && !prods.is_empty() {
+            let t = *rng.pick(&prods);
+            let side = rng.below(3);
+            v.push(gen_pixel_threshold(rng, t, side));
+            continue;
+        }
         // one image above the sub-sampling threshold of from_image (51200 pixels) per 400 cases
         if i % 400 == 40 {
             v.push(gen_big(rng));
